@@ -1,4 +1,5 @@
 import Blue.Driver.Util
+import Blue.Driver.C19
 import Blue.Driver.C10
 import Blue.Driver.C13
 import Blue.Driver.C15
@@ -23,6 +24,8 @@ def dispatch (toks : List String) : String :=
   | "mani" :: rest => Blue.Driver.C13.handle rest
   | "block" :: rest => Blue.Driver.C10.handle ("block" :: rest)
   | "sst" :: rest => Blue.Driver.C10.handle ("sst" :: rest)
+  | "bv" :: rest => Blue.Driver.C19.handleBv rest
+  | "doc" :: rest => Blue.Driver.C19.handleDoc rest
   | _ => "bad-op"
 
 partial def loop (h : IO.FS.Stream) (out : IO.FS.Stream) : IO Unit := do
